@@ -82,6 +82,16 @@ def gen_docs(rng, tier, names):
     for n in range(1, L + 1):
         for seq in itertools.product(kinds, repeat=n):
             docs.append("\n".join(REP[k] for k in seq) + "\n")
+    # continuation lines of containers in every indentation spelling (spaces, tab, space-before-tab ...) after an empty line
+    for opener in ["- item", "1. item", "[^fn]: note", "Term\n: def", "> quote", "* a\n    * nested", "[?gl]: glossary", "[#c]: cite"]:
+        for ind in ["    ", "\t", "  \t", " \t", "   \t", "    \t", "\t  ", "     ", "        "]:
+            for content in ["code", "* nested", "1. n", "> q", "# h", "text", "```", "| a | b |", "|---|", "| a |\n" + ind + "|---|\n" + ind + "| 1 |"]:
+                docs.append("%s\n\n%s%s\n" % (opener, ind, content))
+                docs.append("%s\n%s%s\n\n%smore\n" % (opener, ind, content, ind))
+    # containers whose first line already is a table row, a pipe, a separator ...
+    for marker in ["* ", "+ ", "- ", "1. ", "> ", "[^fn]: ", ": "]:
+        for first in ["|", "|-|", "a | b", "| a | b |", "|:-:|", "a | b\n  |---|---|\n  | 1 | 2 |", "a | b\n    |---|---|\n    | 1 | 2 |"]:
+            docs.append(("Term\n" if marker == ": " else "") + marker + first + "\n")
     # random longer documents
     pool = [REP[k] for k in kinds] + EXTRA
     for _ in range(1500 if tier == "quick" else 40000):
